@@ -88,6 +88,7 @@ def run(model: Model, rep: Report) -> None:
     # ---------------------------------------------------------------- R6
     char_width_rule(model, rep, "C07-R6")
     _decode_fsm(model, rep)
+    _tounicode_targets(model, rep)
     # collection Unicode maps are memoised per name: the stored pair must not depend on the orientation requested first (shared with C12-R7)
     from .c12 import memo_purity_rule
 
@@ -171,3 +172,21 @@ def _decode_fsm(model: Model, rep: Report) -> None:
     # the only non-root value the cursor takes is the entry just looked up
     vals = {"".join(unparse(n.ast.value).split()) for n in g.nodes if assigns_cur(n)}
     r8.check(vals <= {"self.code2cid", "cast(Dict[int,object],x)", "x"} and "self.code2cid" in vals and len(vals) >= 2, site(f, lp), f.qualname, "the cursor is either the root or the sub-table found for the byte", why=f"cursor values {sorted(vals)}")
+
+
+def _tounicode_targets(model: Model, rep: Report) -> None:
+    r10 = rep.rule("C07-R10", "DISPATCH", "ToUnicode targets: a name is an Adobe glyph name, a string is UTF-16BE text, an integer is a code point; the CMap of a CID font comes from /Encoding (name, or CMapName of a stream), DLIdent aliases Identity", 4)
+    f = model.func(CM + "FileUnicodeMap.add_cid2unichr")
+    arms = {}
+    for n in walk_no_nested(f.node):
+        if isinstance(n, ast.If) and isinstance(n.test, ast.Call) and (dotted(n.test.func) or "") == "isinstance" and unparse(n.test.args[0]) == "code":
+            arms[unparse(n.test.args[1])] = "".join(unparse(ast.Module(body=n.body, type_ignores=[])).split())
+    r10.check("unichr=name2unicode(code.name)" in arms.get("PSLiteral", "") and arms.get("bytes") == "unichr=code.decode('UTF-16BE','ignore')" and arms.get("int") == "unichr=chr(code)", site(f), f.qualname, "PSLiteral -> name2unicode(name); bytes -> UTF-16BE; int -> chr", why=f"{arms}")
+    s_ = "".join(unparse(f.node).split())
+    r10.check(s_.endswith("self.cid2unichr[cid]=unichr") and "ifunichr=='\\xa0'andself.cid2unichr.get(cid)=='':return" in s_, site(f), f.qualname, "the text is stored under the CID (a no-break space does not replace a space already mapped)", why="store changed")
+    g = model.func(F + "PDFCIDFont._get_cmap_name")
+    sg = "".join(unparse(g.node).split())
+    r10.check("spec_encoding=spec['Encoding']" in sg and "ifhasattr(spec_encoding,'name'):cmap_name=literal_name(spec['Encoding'])else:cmap_name=literal_name(spec_encoding['CMapName'])" in sg and "returnIDENTITY_ENCODER.get(cmap_name,cmap_name)" in sg, site(g), g.qualname, "CMap name = /Encoding if it is a name, else its /CMapName; DLIdent-H/V alias Identity-H/V", why="changed")
+    h = model.func(F + "PDFCIDFont.get_cmap_from_spec")
+    sh = "".join(unparse(h.node).split())
+    r10.check("cmap_name=self._get_cmap_name(spec,strict)" in sh and "returnCMapDB.get_cmap(cmap_name)" in sh and "exceptCMapDB.CMapNotFoundase:" in sh and sh.endswith("returnCMap()"), site(h), h.qualname, "the named CMap is loaded; an unknown name falls back to an empty CMap (strict: PDFFontError)", why="changed")
